@@ -4,7 +4,7 @@ CONSTANTS
   MaxCalls = 14
   Lattice = "L5"
   Protos = {"seg", "pt"}
-  SampleMod = 7
+  SampleMod = 4
 INIT Init
 NEXT Next
 CONSTRAINT Emit
